@@ -8,7 +8,12 @@ VARIABLES l, bad
 TInit == l = 1 /\ bad = <<>> /\ ev = <<>> /\ cfg = (CHOOSE c \in AllConfigs : TRUE) /\ done = FALSE
 Seq1(x) == [i \in 1..Len(x) |-> x[i]]
 C(e) == [parts |-> Seq1(e.cfg.parts), pexcl |-> Seq1(e.cfg.pexcl), forder |-> Seq1(e.cfg.forder), fexcl |-> Seq1(e.cfg.fexcl)]
-Guard(e) == LET v == Seq1(e.ev)  c == C(e) IN
+\* any event the JSON logger can emit (the C01 generator's output): Write succeeds, full length, deterministic, and the
+\* output ends with a newline (the message part and member names are written verbatim by design, so a message that
+\* itself contains a line break spans lines: "one line" is not demanded of those)
+RawGuard(e) == e.err = "" /\ e.n = e.inlen /\ e.same /\ e.endsnl
+Guard(e) == IF e.a = "Raw" THEN RawGuard(e) ELSE
+            LET v == Seq1(e.ev)  c == C(e) IN
             /\ e.err = "" /\ e.n = e.inlen                       \* Write succeeds and reports the full input length
             /\ e.same                                            \* same event and configuration, same bytes
             /\ e.oneline                                         \* exactly one line
